@@ -85,15 +85,7 @@ def run(ctx, col, tier):
         ("id / parent-id columns are overwritten by the new topology",
          ["df[names.id], df[names.pid] = new_ids, new_pids"], "overwrite"),
     ], fixed=("df", "names", "sort_nodes_impl"))
-    # the permutation must cover the whole key set: a literal / names-derived subset drops the extra columns
-    loops = [n for n in own_nodes(d) if isinstance(n, ast.For)]
-    for lp in loops:
-        if any(isinstance(x, ast.Subscript) and "df" in names_in(x) for x in ast.walk(lp)):
-            it = norm_src(lp.iter)
-            if it != "df.columns" and ("names" in names_in(lp.iter) or isinstance(lp.iter, (ast.List, ast.Tuple))):
-                col.bad("R-UNIF", d.qualname, d.loc(lp), "the permutation covers every column of the table",
-                        f"the row permutation runs over `{it}` only: columns outside it (extra columns) keep their old row order "
-                        f"and end up on the wrong nodes", stmt="gather-keys", definite=True)
+    table_gather_keys(ctx, col, "R-UNIF")
     # ---------------- R-UNIF: tree form
     t = repo.get_def(f"{TU}._sort_tree")
     col.text_group("R-UNIF", t.qualname, t, [
@@ -131,6 +123,19 @@ def run(ctx, col, tier):
 
     for q, what in ((f"{TU}.sort_tree", "sort_tree"), (f"{NORM}.sort_nodes_", "sort_nodes_")):
         recursion_free(ctx, col, "R-CG", [q], f"recursion-free from {what}")
+
+
+def table_gather_keys(ctx, col, rule):
+    """the row permutation of the table form must cover the whole key set: a literal / names-derived subset drops the extra columns"""
+    d = ctx.repo.get_def(f"{NORM}.sort_nodes_")
+    loops = [n for n in own_nodes(d) if isinstance(n, ast.For)]
+    for lp in loops:
+        if any(isinstance(x, ast.Subscript) and "df" in names_in(x) for x in ast.walk(lp)):
+            it = norm_src(lp.iter)
+            if it != "df.columns" and ("names" in names_in(lp.iter) or isinstance(lp.iter, (ast.List, ast.Tuple))):
+                col.bad(rule, d.qualname, d.loc(lp), "the permutation covers every column of the table",
+                        f"the row permutation runs over `{it}` only: columns outside it (extra columns) keep their old row order "
+                        f"and end up on the wrong nodes", stmt="gather-keys", definite=True)
 
 
 def tree_gather_keys(ctx, col, rule):
